@@ -3,10 +3,12 @@ package main
 import (
 	"context"
 	"crypto/ecdh"
+	crand "crypto/rand"
 	"crypto/x509"
 	"encoding/base64"
 	"encoding/json"
 	"fmt"
+	"io"
 	gobig "math/big"
 	"os"
 	"os/exec"
@@ -434,6 +436,85 @@ func procsEnv(o Op) []string {
 	return append(env, fmt.Sprintf("GOMAXPROCS=%d", o.int("procs")))
 }
 
+// degenerateDrawReader answers the first read of exactly `size` bytes with zeroes (the draw of
+// the first candidate for the base S at that modulus length) and passes everything else through.
+type degenerateDrawReader struct {
+	orig io.Reader
+	size int
+	mu   sync.Mutex
+	hits int
+}
+
+func (r *degenerateDrawReader) Read(p []byte) (int, error) {
+	r.mu.Lock()
+	first := len(p) == r.size && r.hits == 0
+	if first {
+		r.hits++
+	}
+	r.mu.Unlock()
+	if first {
+		for i := range p {
+			p[i] = 0
+		}
+		return len(p), nil
+	}
+	return r.orig.Read(p)
+}
+
+func init() {
+	// child process (it replaces the process-wide randomness source): key generation whose first
+	// candidate for S is the degenerate value 0; the generated bases are quadratic residues
+	// modulo both primes whatever the source hands out
+	children["keygen-degenerate-child"] = func(args []string) {
+		var ln, nattr int
+		fmt.Sscan(args[0], &ln)
+		fmt.Sscan(args[1], &nattr)
+		reader := &degenerateDrawReader{orig: crand.Reader, size: ln / 8}
+		crand.Reader = reader
+		sk, pk, err := gabikeys.GenerateKeyPair(c16Param(uint(ln)), nattr, 0, time.Unix(2000000000, 0))
+		if err != nil {
+			fmt.Println("err " + err.Error())
+			return
+		}
+		if reader.hits == 0 {
+			fmt.Println("wellformed (the degenerate draw was not consumed)")
+			return
+		}
+		bad := ""
+		chk := func(name string, x *big.Int) {
+			if x == nil || x.Sign() <= 0 || x.Cmp(pk.N) >= 0 || gobig.Jacobi(x.Go(), sk.P.Go()) != 1 || gobig.Jacobi(x.Go(), sk.Q.Go()) != 1 {
+				bad += " " + name
+			}
+		}
+		chk("S", pk.S)
+		chk("Z", pk.Z)
+		for i, r := range pk.R {
+			chk(fmt.Sprintf("R%d", i), r)
+		}
+		if bad != "" {
+			fmt.Println("not-residues:" + bad)
+			return
+		}
+		fmt.Println("wellformed")
+	}
+	executors["keygen-degenerate"] = func(o Op) string {
+		self, err := os.Executable()
+		if err != nil {
+			return "err"
+		}
+		ctx, cancel := context.WithTimeout(context.Background(), keygenBudget(uint(o.int("ln"))))
+		defer cancel()
+		out, err := exec.CommandContext(ctx, self, "keygen-degenerate-child", fmt.Sprint(o.int("ln")), fmt.Sprint(o.int("nattr"))).Output()
+		if ctx.Err() != nil {
+			return "timeout"
+		}
+		if err != nil {
+			return "err"
+		}
+		return strings.SplitN(strings.TrimSpace(string(out)), " ", 2)[0]
+	}
+}
+
 func terminatesOp(ln uint, nattr int, class string) Op {
 	return Op{"op": "keygen-terminates", "class": class, "fkey": "keygen-does-not-terminate", "label": "done", "nomodel": true,
 		"ln": int(ln), "nattr": nattr, "budget_ms": int(keygenBudget(ln) / time.Millisecond)}
@@ -663,6 +744,11 @@ func genC16(g *Rng, tier string, emit func(Op)) {
 		if pl.ln < 1024 {
 			emit(terminatesOp(pl.ln, 1+g.intn(20), fmt.Sprintf("keygen-terminates-%d", pl.ln)))
 		}
+	}
+	// the first candidate for the base S is the degenerate value 0
+	for _, ln := range []int{256, 192, 128} {
+		emit(Op{"op": "keygen-degenerate", "class": "keygen-degenerate-first-S-candidate", "label": "wellformed", "nomodel": true, "fkey": "C16/degenerate-S-candidate",
+			"ln": ln, "nattr": 3})
 	}
 	// a key pair whose revocation keys are renewed (the old ones removed, new ones generated for
 	// the same objects): what the objects hold in memory is what they serialise
